@@ -1,0 +1,218 @@
+// Copyright 2026 Anapaya Systems
+//
+// Licensed under the Apache License, Version 2.0 (the "License");
+// you may not use this file except in compliance with the License.
+// You may obtain a copy of the License at
+//
+//   http://www.apache.org/licenses/LICENSE-2.0
+//
+// Unless required by applicable law or agreed to in writing, software
+// distributed under the License is distributed on an "AS IS" BASIS,
+// WITHOUT WARRANTIES OR CONDITIONS OF ANY KIND, either express or implied.
+// See the License for the specific language governing permissions and
+// limitations under the License.
+//! Verification hook (cargo feature `verif-hooks`, off by default, add-only).
+//!
+//! Drives the real [`PathUnawareUdpScionSocket`] receive loop (`recv_from` /
+//! `recv_from_with_path`) with the real [`ScmpErrorHandler`] (and optionally the real
+//! [`DefaultEchoHandler`]) over a scripted in-memory underlay: a fixed list of raw packets comes
+//! in; the datagrams handed to the caller, the replies passed to `try_send` and the SCMP errors
+//! reported to a registered [`ScmpErrorReceiver`] come out.  The scripted underlay never reports
+//! `WouldBlock`; when the script is exhausted it reports `NotConnected`, which ends the run.
+
+use std::{
+    collections::VecDeque,
+    sync::{Arc, Mutex},
+};
+
+use async_trait::async_trait;
+use sciparse::{
+    address::ip_socket_addr::ScionSocketIpAddr,
+    core::view::View,
+    dataplane_path::view::{ScionDpPathViewExt, ScionDpPathViewRef},
+    packet::view::ScionRawPacketView,
+    payload::scmp::model::ScmpErrorMessage,
+};
+
+use super::{
+    BoundUnderlaySocket, ScionSocketReceiveError, ScionSocketSendError, UnderlaySocket,
+    scmp_handler::{DefaultEchoHandler, ScmpErrorHandler, ScmpErrorReceiver, ScmpHandler},
+    socket::PathUnawareUdpScionSocket,
+};
+use crate::internal::Subscribers;
+
+/// One datagram handed to the caller of `recv_from*`.
+#[derive(Debug, Clone)]
+pub struct DeliveredDatagram {
+    /// Length reported by the socket (the full UDP payload length).
+    pub reported_len: usize,
+    /// The bytes copied into the caller's buffer (`min(buffer.len(), reported_len)`).
+    pub data: Vec<u8>,
+    /// Sender reported by the socket.
+    pub src: ScionSocketIpAddr,
+    /// Raw bytes of the path reported by `recv_from_with_path` (None for `recv_from`).
+    pub path: Option<Vec<u8>>,
+}
+
+/// Observable result of one scripted run.
+#[derive(Debug, Default, Clone)]
+pub struct ScriptedRun {
+    /// Datagrams returned by the receive loop, in order, each tagged with the number of script
+    /// packets consumed when it was returned.
+    pub datagrams: Vec<(usize, DeliveredDatagram)>,
+    /// Packets passed to the underlay's `try_send` (SCMP replies), each tagged with the number of
+    /// script packets consumed when it was sent.
+    pub replies: Vec<(usize, Vec<u8>)>,
+    /// SCMP errors reported to the registered receiver (error, raw path bytes), each tagged with
+    /// the number of script packets consumed when it was reported.
+    pub errors: Vec<(usize, ScmpErrorMessage, Vec<u8>)>,
+    /// Script entries that are not decodable raw SCION packets (a real underlay never hands
+    /// these to the socket); skipped.
+    pub skipped_undecodable: usize,
+}
+
+struct Shared {
+    script: Mutex<VecDeque<Vec<u8>>>,
+    consumed: Mutex<usize>,
+    out: Mutex<ScriptedRun>,
+}
+
+struct ScriptedUnderlay(Arc<Shared>);
+
+#[async_trait]
+impl UnderlaySocket for ScriptedUnderlay {
+    fn try_send(&self, packet: &ScionRawPacketView) -> Result<(), ScionSocketSendError> {
+        let k = *self.0.consumed.lock().expect("lock");
+        self.0
+            .out
+            .lock()
+            .expect("lock")
+            .replies
+            .push((k, packet.as_slice().to_vec()));
+        Ok(())
+    }
+
+    async fn writeable(&self) {}
+
+    fn try_recv(&self, buf: &mut [u8]) -> Result<usize, ScionSocketReceiveError> {
+        loop {
+            let Some(p) = self.0.script.lock().expect("lock").pop_front() else {
+                return Err(ScionSocketReceiveError::NotConnected);
+            };
+            *self.0.consumed.lock().expect("lock") += 1;
+            if p.len() > buf.len() || ScionRawPacketView::try_from_slice(&p).is_err() {
+                self.0.out.lock().expect("lock").skipped_undecodable += 1;
+                continue;
+            }
+            buf[..p.len()].copy_from_slice(&p);
+            return Ok(p.len());
+        }
+    }
+
+    async fn readable(&self) {}
+}
+
+struct Recorder(Arc<Shared>);
+impl ScmpErrorReceiver for Recorder {
+    fn report_scmp_error(&self, scmp_error: ScmpErrorMessage, path: ScionDpPathViewRef<'_>) {
+        let k = *self.0.consumed.lock().expect("lock");
+        let path_bytes = match path {
+            ScionDpPathViewRef::Standard(v) => v.as_slice().to_vec(),
+            ScionDpPathViewRef::OneHop(v) => v.as_slice().to_vec(),
+            ScionDpPathViewRef::Empty => vec![],
+            ScionDpPathViewRef::Unsupported { data, .. } => data.to_vec(),
+        };
+        self.0
+            .out
+            .lock()
+            .expect("lock")
+            .errors
+            .push((k, scmp_error, path_bytes));
+    }
+}
+
+/// Runs the real receive loop of [`PathUnawareUdpScionSocket`] over `script` until the script is
+/// exhausted.
+///
+/// * `with_path`: use `recv_from_with_path` instead of `recv_from`.
+/// * `with_echo_handler`: install [`DefaultEchoHandler`] after the [`ScmpErrorHandler`].
+/// * `buffer_len`: size of the caller's receive buffer.
+pub fn run_recv_loop(
+    local_addr: ScionSocketIpAddr,
+    script: Vec<Vec<u8>>,
+    with_path: bool,
+    with_echo_handler: bool,
+    buffer_len: usize,
+) -> ScriptedRun {
+    let shared = Arc::new(Shared {
+        script: Mutex::new(script.into()),
+        consumed: Mutex::new(0),
+        out: Mutex::new(ScriptedRun::default()),
+    });
+    let receivers: Subscribers<dyn ScmpErrorReceiver> = Subscribers::new();
+    let recorder: Arc<dyn ScmpErrorReceiver> = Arc::new(Recorder(shared.clone()));
+    receivers.register(recorder.clone());
+
+    let mut handlers: Vec<Box<dyn ScmpHandler>> = vec![Box::new(ScmpErrorHandler::new(receivers))];
+    if with_echo_handler {
+        handlers.push(Box::new(DefaultEchoHandler::new()));
+    }
+    let socket = PathUnawareUdpScionSocket::new(
+        BoundUnderlaySocket {
+            socket: Box::new(ScriptedUnderlay(shared.clone())),
+            local_addr,
+            snap_data_plane: None,
+        },
+        handlers,
+    );
+
+    let mut buffer = vec![0u8; buffer_len];
+    futures::executor::block_on(async {
+        loop {
+            if with_path {
+                match socket.recv_from_with_path(&mut buffer).await {
+                    Ok((n, src, path)) => {
+                        let k = *shared.consumed.lock().expect("lock");
+                        let m = n.min(buffer.len());
+                        let path_bytes = match path.dp_path().as_ref() {
+                            ScionDpPathViewRef::Standard(v) => v.as_slice().to_vec(),
+                            ScionDpPathViewRef::OneHop(v) => v.as_slice().to_vec(),
+                            ScionDpPathViewRef::Empty => vec![],
+                            ScionDpPathViewRef::Unsupported { data, .. } => data.to_vec(),
+                        };
+                        shared.out.lock().expect("lock").datagrams.push((
+                            k,
+                            DeliveredDatagram {
+                                reported_len: n,
+                                data: buffer[..m].to_vec(),
+                                src,
+                                path: Some(path_bytes),
+                            },
+                        ));
+                    }
+                    Err(_) => break,
+                }
+            } else {
+                match socket.recv_from(&mut buffer).await {
+                    Ok((n, src)) => {
+                        let k = *shared.consumed.lock().expect("lock");
+                        let m = n.min(buffer.len());
+                        shared.out.lock().expect("lock").datagrams.push((
+                            k,
+                            DeliveredDatagram {
+                                reported_len: n,
+                                data: buffer[..m].to_vec(),
+                                src,
+                                path: None,
+                            },
+                        ));
+                    }
+                    Err(_) => break,
+                }
+            }
+        }
+    });
+    drop(recorder);
+    let out = shared.out.lock().expect("lock").clone();
+    out
+}
